@@ -112,6 +112,10 @@ def gen_cases(tier, rng):
                         if k == "bool" or rng.random() < 0.5:
                             hb = [hexbytes(rng, k, span if k == "bool" else g)]
                         cases.append(" ".join(["ld%s" % cfg, variant, k, str(o), str(rng.randrange(256)), str(n)] + hb))
+        # function pointers stored through *p: the cell receives the function-table index
+        for off in (128, 131, 4096 - c["pw"], 8192):
+            for k in (0, 1, 2, 3):
+                cases.append("st%s fnp %d %d %d" % (cfg, off, k, rng.randrange(256)))
         # whole-array stores and loads: T[6] and T[2][3] (six consecutive guest elements, row-major)
         for k in [kk for kk in INTK if kk != "bool"] + ["enum", "float", "double"]:
             g = gsize(cfg, k)
